@@ -251,6 +251,12 @@ def structured_cases(rng, tier, out, seen):
                 else:
                     streams = [(0x1B, 0x65, [(0x05, b"CUEI")]), (0x86, 0x67, [(0x0E, b"\xc0\x04\xb0"), (tag, body)])]
                 psi_payload(b"\x00" + T.pmt_section(streams) + b"\xff" * 2, "printer-shapes", 0x65)
+    # the smallest sections: table_id 2 with section_length 0..24 (the decoders' minimum-length guards: 9 = static part + CRC,
+    # 13 in the filter), content taken from a valid section, followed by stuffing or by the rest of the valid section
+    valid = T.pmt_section([(0x1B, 0x100, [])], prog=1)
+    for sl in range(0, 25):
+        for tail in (b"\xff" * 4, valid[3 + sl:] + b"\xff" * 2, b""):
+            psi_payload(b"\x00" + bytes([0x02, 0xB0, sl]) + valid[3:3 + sl] + tail, "small-sections", 0x100)
     # a payload whose first section byte is stuffing (NewPMT inspects nothing) followed by bytes that announce a section:
     # every announced section_length class, in one and in two packets, with every derived PID list
     for sl in (0, 12, 13, 14, 100, 179, 180, 181, 183, 184, 364, 365, 366, 500, 1021, 1023):
